@@ -635,7 +635,8 @@ class HedTag:
         if not isinstance(other, HedTag):
             return False
 
-        if self.short_tag == other.short_tag:
+        # Letter case is not significant (and __hash__ folds it), however the two tags were spelled.
+        if self.short_tag.casefold() == other.short_tag.casefold():
             return True
 
         if self.org_tag.casefold() == other.org_tag.casefold():
